@@ -172,6 +172,59 @@ VLD_RANDOM = {'kind': 'gen', 'name': 'randombuffers', 'gen': vld_random, 'comp':
 VLD_DEC = {'kind': 'gen', 'name': 'decodedframes', 'gen': _dec_frames_proxy, 'comp': 'dec', 'trace': 'TraceDec', 'variant': 'asan'}
 
 
+# ------------------------------------------------------------------ concurrency / definedness
+def _mixed(seed, n, big=False):
+    """Episodes of every component (encoder, decoder incl. reassembly and TECMP, status, builders)."""
+    import itertools
+    srcs = [enc_gen.gen(seed, n, 'e', big=big), dec_gen.streams(seed + 1, n, 's', big=big), dec_gen.frames(seed + 2, n, 'c'),
+            dec_gen.tecmp(seed + 3, n, 't'), st_gen.gen(seed + 4, n, 120, 'u'), obj_gen.builds(layout_table(), seed + 5, 'quick', 'b'),
+            dec_gen.streams(seed + 6, n, 'f', faults=True, big=False)]
+    out = []
+    for tup in itertools.zip_longest(*[itertools.islice(g, n) for g in srcs]):
+        out += [e for e in tup if e is not None]
+    return out
+
+
+def conc_workload(tier, seed, path):
+    import random
+    rng = random.Random(seed + 51)
+    runs = 20 if tier == 'quick' else 200
+    eps = []
+    for r in range(runs):
+        nth = rng.choice([2, 2, 4, 8, 16])
+        pool = _mixed(seed * 1000 + r, 3)
+        rng.shuffle(pool)
+        for k, e in enumerate(pool[:nth * 3]):
+            e = dict(e)
+            e['run'], e['thread'] = r, k % nth
+            e['id'] = 'r%d.t%d.%s' % (r, k % nth, e['id'])
+            eps.append(e)
+    return enc_gen.write(path, eps)
+
+
+def perturb_workload(tier, seed, path):
+    eps = _mixed(seed + 61, 40 if tier == 'quick' else 600, big=(tier != 'quick'))
+    return enc_gen.write(path, eps)
+
+
+def memcheck_workload(tier, seed, path):
+    eps = _mixed(seed + 71, 4 if tier == 'quick' else 60)
+    return enc_gen.write(path, eps)
+
+
+def nt_any(c):
+    return len(c.get('ops', [])) >= 2
+
+
+CONC_MC = {'kind': 'mc', 'name': 'noninterference', 'module': 'Concurrent', 'comp': '-', 'trace': '-', 'model_only': True,
+           'cfg': {'quick': 'Concurrent.cfg', 'thorough': 'Concurrent.cfg'}, 'invariants': ['NonInterference']}
+CONC_RUN = {'kind': 'gen', 'name': 'threads-tsan', 'gen': conc_workload, 'comp': '*', 'trace': 'TraceSame', 'variant': 'tsan',
+            'mode': 'threads'}
+PERTURB_RUN = {'kind': 'gen', 'name': 'heap-patterns', 'gen': perturb_workload, 'comp': '*', 'trace': 'TraceSame', 'mode': 'perturb'}
+MEMCHECK_RUN = {'kind': 'gen', 'name': 'memcheck', 'gen': memcheck_workload, 'comp': '*', 'trace': 'TraceSame', 'mode': 'perturb',
+                'memcheck': True, 'per_part': 2}
+
+
 # ------------------------------------------------------------------ values
 def val_random(tier, seed, path):
     n = 150 if tier == 'quick' else 3000
@@ -406,4 +459,28 @@ PROPS = {
                                                  'nonnull-attribute off: packed header casts and memcpy(_, nullptr, 0) are used by '
                                                  'design), not decided by TLA+',
                                                  '"promptly" = each episode finishes within the watchdog (60 s)']},
+    'C19': {'level': 'exploration', 'stages': [CONC_MC, CONC_RUN], 'nontrivial_case': nt_any,
+            'technique': 'TLA+ composition of N instance specifications (non-interference invariant, TLC); per-thread traces of '
+                         'concurrent runs validated by TLC against the trace of the same workload run alone; data races observed by '
+                         'ThreadSanitizer',
+            'rule': 'Concurrent.tla: 2 instances (encoder, decoder, status tracker each), all interleavings of 5 operations: every '
+                    'instance is where its own operations alone bring it (NonInterference). Binding: 20 (thorough 200) runs of 2..16 '
+                    'threads, each thread driving its own Encoder, Decoder (incl. reassembly, faults, TECMP conversion through the '
+                    'static TECMP decoder), Status object and payload builders on a seeded workload with injected yields, one log '
+                    'per thread; the same workloads are first run alone; TLC (TraceSame) requires the concurrent log of every thread '
+                    'to be bit-identical to its alone log; the executor is built with ThreadSanitizer (a report ends the process: '
+                    'crash event). Non-trivial = distinct thread workloads (episodes) of at least two operations.',
+            'assumptions': COMMON_ASSUMPTIONS + ['thread schedules are sampled (seeded yields), not enumerated',
+                                                 'the absence of data races is observed by ThreadSanitizer, not decided by TLA+']},
+    'C20': {'level': 'exploration', 'stages': [PERTURB_RUN, MEMCHECK_RUN], 'nontrivial_case': nt_any,
+            'technique': 'the TLA+ specification predicts every output byte (checked by the other properties\' trace validation); '
+                         'here TLC compares traces of the same workload under two heap fill patterns and under memcheck',
+            'rule': 'workloads of the encoder, decoder (frames, reassembly, faults, TECMP), status and builder generators; every '
+                    'episode is executed under MALLOC_PERTURB_=165 and =90 (fresh allocations filled with different patterns) and '
+                    'TLC (TraceSame) requires the two logs (every frame byte incl. padding and unused id bytes, every getter, every '
+                    'raw payload) to be identical; a smaller workload is executed under valgrind memcheck '
+                    '(--exit-on-first-error): any decision on, or logging of, an undefined byte ends the worker (crash event). '
+                    'Non-trivial = distinct episodes of at least two operations.',
+            'assumptions': COMMON_ASSUMPTIONS + ['definedness is observed by memcheck and by the two heap fill patterns, not decided by TLA+',
+                                                 'that the identical outputs are also the right ones is decided by the trace validation of C01, C04, C05, C07, C13, C15']},
 }
